@@ -20,7 +20,7 @@ import (
 // Host runs the real proxy in-process and controls its poller loop through the verif hooks.
 type Host struct {
 	Steps int // iterations of the loop so far
-	Addr string
+	Addr  string
 
 	free    int32 // 1: gate open
 	parked  chan struct{}
